@@ -790,7 +790,10 @@ def _run(ctx):
                 ctx.probe("instruction_level_enumeration")
 
         # ---- result joins the heap ----
-        if outcome == "ok" and isinstance(val, pb.Signal) and val is not z:
+        if outcome == "ok" and isinstance(val, pb.Signal) and val is not z \
+                and not (getattr(op, "terminal", False) and opname == "ufunc_kw"):
+            # (ufunc_kw results hold uninitialised memory where the mask is False: never hashed,
+            # never used again)
             origin = f"result of step {s} {opname}({target.name})"
             grp = target.group if opname in ALIAS_OK else None
             if opname == "ctor_raw":        # the new signal may wrap the raw buffer it was given
